@@ -22,6 +22,7 @@ type splitter struct {
 	// every mention of an optional dependency (`required: false`) carries the flag. Set by C05, whose generated
 	// chains would otherwise stop at the known finding c05:inherited-optional-dependency-becomes-required
 	carryRequired bool
+	ulimitPartial bool // refine one key of a soft/hard pair in a later part (see the known finding)
 }
 
 func (s *splitter) coin(label string, num, den int) bool {
@@ -71,7 +72,7 @@ func matchAny(path string, patterns ...string) bool {
 	return false
 }
 
-var splitWholesale = []string{"services.*.command", "services.*.entrypoint", "services.*.healthcheck.test", "services.*.ulimits.*", "services.*.build.ulimits.*"}
+var splitWholesale = []string{"services.*.command", "services.*.entrypoint", "services.*.healthcheck.test"}
 var splitKV = []string{"services.*.environment", "services.*.labels", "services.*.annotations", "services.*.sysctls", "services.*.build.args", "services.*.build.labels",
 	"services.*.deploy.labels", "networks.*.labels", "volumes.*.labels", "services.*.build.additional_contexts", "secrets.*.labels", "configs.*.labels"}
 var splitHosts = []string{"services.*.extra_hosts", "services.*.build.extra_hosts"}
@@ -200,6 +201,32 @@ func (s *splitter) splitValue(path string, v any) []frag {
 		return s.replaceLike(path, v, true)
 	}
 	switch {
+	case gp == "services.*.ulimits.*" || gp == "services.*.build.ulimits.*":
+		// a soft/hard pair is a mapping like any other (merged key by key); only its first mention has to be
+		// complete, because each file is validated once merged. A single number is replaced.
+		// (switched off: compose-go replaces a ulimit entry wholesale - known finding c04:ulimit-pair-replaced-not-merged,
+		// pinned by the project's own Test_mergeYamlUlimits - and every generated run would stop there)
+		if m, ok := v.(map[string]any); ok && s.ulimitPartial && s.n >= 2 && len(m) == 2 && s.coin("ulimit-partial", 2, 3) {
+			out := s.absent()
+			i := rapid.IntRange(0, s.n-2).Draw(s.t, "ulfirst")
+			j := rapid.IntRange(i+1, s.n-1).Draw(s.t, "ulsecond")
+			first, later := map[string]any{}, map[string]any{}
+			keys := sortedKeys(m)
+			k0 := rapid.IntRange(0, len(keys)-1).Draw(s.t, "ulkey")
+			for idx, k := range keys {
+				if idx == k0 {
+					later[k] = m[k]
+					first[k] = s.decoy(path+"."+k, m[k])
+				} else {
+					first[k] = m[k]
+				}
+			}
+			out[i], out[j] = frag{true, first}, frag{true, later}
+			s.used["ulimit-refined-by-a-later-part"]++
+			return out
+		}
+		s.used["wholesale"]++
+		return s.replaceLike(path, v, true)
 	case matchAny(gp, splitWholesale...):
 		s.used["wholesale"]++
 		return s.replaceLike(path, v, true)
